@@ -165,6 +165,9 @@ type attr struct {
 	value string
 	// ambiguousValue indicates whether value contains an ambiguous value due to context-joining.
 	ambiguousValue bool
+	// ambiguousNameEnd indicates whether it is unknown, due to context-joining, if name has ended:
+	// one joined branch ended inside the attribute name and another one after it.
+	ambiguousNameEnd bool
 	// names contains all possible names the attribute could assume because of context joining.
 	// For example, after joining the contexts in the "if" and "else" branches of
 	//     <a {{if .C}}title{{else}}name{{end}}="foo">
